@@ -32,7 +32,7 @@ def q(tier, quick, thorough):
     return quick if tier == "quick" else thorough
 
 
-DIRECTED = "stun-flood,listen-random-ports,sudp-close-under-traffic,sudp-close-under-traffic,many-proxies-drop,plugin-users,vnet-frames"
+DIRECTED = "stun-flood,listen-random-ports,sudp-close-under-traffic,sudp-close-under-traffic,many-proxies-drop,plugin-users,vnet-frames,health-stop,health-stop,health-stop,health-stop"
 
 
 def race_build(wait=True, proc=None):
